@@ -46,4 +46,14 @@ TEXT = {
  'note': "Trusted: memnet.Mem's recording of escaped panics. Panics raised inside other interceptors are outside the generated domain.",
  'technique': "property-based testing (rapid): differential against Go's recover(), exactly-once counter, model comparison of the delivered error, metamorphic "
               'with/without WithRecover for non-panicking calls'},
+    'C18': {'text': 'Exploration with exhaustive sub-spaces: the text form of ALL 2^32 codes round-trips (thorough; quick enumerates 0..2^20, 2^k±2, the top 2^16 and '
+         'random values); near-miss and random strings that are neither a name nor code_<n> are rejected; the percent-codec is enumerated for ALL byte strings '
+         'of length ≤3 (in-process via go:linkname in both tiers; additionally black-box through a gRPC client, ≤2 quick / ≤3 thorough) and sampled up to 4 '
+         'KiB through a real handler and client; code→HTTP status is enumerated for all 2^32 codes (thorough, linkname) and sampled black-box; binary headers '
+         'round-trip.',
+ 'design_ref': 'DESIGN.md §5 C18',
+ 'note': 'The two go:linkname sub-checks are optional: if they stop linking after a refactor they are skipped (noted in the evidence) and the black-box '
+         "sub-checks decide. Trusted: refwire's percent codec as second implementation.",
+ 'technique': 'exhaustive enumeration of finite domains + property-based testing (rapid): round-trip, rejection, header-safety and totality oracles; '
+              'differential against an independent percent codec'},
 }
